@@ -964,8 +964,10 @@ static bool step(Rig& rig, const std::vector<OpX>& hist, const OpX& o, bool pre_
                                (fresh_ok ? "" : " fresh-too"),
                  h2, label);
       } else {
-        record(unjudged, std::string(o.kind == 'S' ? "solve" : "op") + "-fails(" + label + ") solver=" + cfg.solver, h2,
-               label);
+        record(unjudged,
+               std::string(o.kind == 'S' ? "solve" : "op") + "-fails(" + label + ") solver=" + cfg.solver +
+                   (cfg.sel ? "/lazy" : "/full"),
+               h2, label);
       }
     }
     return false;
@@ -1084,7 +1086,7 @@ static bool step(Rig& rig, const std::vector<OpX>& hist, const OpX& o, bool pre_
     SAY("  %-14s -> %s\n", "S", v ? "ok" : (v.clause + ": " + v.detail).c_str());
     describe(A, "sys");
     if (not v)
-      record(violations, v.clause + " solver=" + cfg.solver, h2, v.detail);
+      record(violations, v.clause + " solver=" + cfg.solver + (cfg.sel ? "/lazy" : "/full"), h2, v.detail);
   } else {
     oracle::C16Stats st;
     Verdict v = oracle::check_c16_bottleneck(p, &st);
@@ -1098,7 +1100,7 @@ static bool step(Rig& rig, const std::vector<OpX>& hist, const OpX& o, bool pre_
     SAY("  %-14s -> %s\n", "S", v ? "ok" : (v.clause + ": " + v.detail).c_str());
     describe(A, "sys");
     if (not v)
-      record(violations, v.clause + " solver=" + cfg.solver, h2, v.detail);
+      record(violations, v.clause + " solver=" + cfg.solver + (cfg.sel ? "/lazy" : "/full"), h2, v.detail);
   }
   return true;
 }
